@@ -89,6 +89,7 @@ func MatchScenario(t *rapid.T) sim.CScenario {
 		n := rapid.IntRange(1, min(4, len(items))).Draw(t, "group")
 		st := sim.CStep{Op: "reply", Items: items[:n:n], Array: n > 1 || rapid.IntRange(0, 3).Draw(t, "arr1") == 0}
 		st.Burst = rapid.IntRange(0, 9).Draw(t, "rburst") < 5
+		st.Lead = pick(t, "lead", []string{"", "", "", "\r\n", "\r", " \r\n\t", "\n", " "})
 		sc.Steps = append(sc.Steps, st)
 		if rapid.IntRange(0, 7).Draw(t, "emptyarr") == 0 {
 			// an empty array between the replies: nothing to deliver, nothing to break
